@@ -63,6 +63,8 @@ def gen_query(rng, fmt):
         sels.append(s)
     if rng.random() < 0.3:
         sels.append(("last", rng.choice(GROUPS)))
+    if rng.random() < 0.2:
+        sels.append((rng.choice(["last", "len"]), "$line"))     # the whole line: in the kv formats a value with '|' in it
     q = "select " + ",".join("%s(%s)" % s for s in sels)
     table = {"default": "STATS", "generickv": ".", "csv": "."}[fmt]
     q += " from " + table
@@ -81,7 +83,7 @@ def gen_query(rng, fmt):
         q += " set %s = %s" % (v, rhs)
     groupby = None
     if rng.random() < 0.8:
-        groupby = rng.sample(GROUPS + (["$m"] if sets else []), rng.choice([1, 1, 2]))
+        groupby = rng.sample(GROUPS + (["$m"] if sets else []) + (["$line"] if rng.random() < 0.15 else []), rng.choice([1, 1, 2]))
         q += " group by " + ",".join(groupby)
     order = None
     if rng.random() < 0.5:
@@ -104,6 +106,15 @@ def generate(rng, tier):
     cases.append({"query": L(q), "servers": [[[L("host=a|x=5|y=-3|z=foo"), L("host=b|x=1")], [L("host=a|x=2.5|z=barbaz")]], [[L("host=a|w=1|x=1")]]], "order": [1, 0, 0],
                   "_meta": {"sels": [("count", "x"), ("sum", "x"), ("min", "x"), ("max", "y"), ("avg", "x"), ("last", "z"), ("len", "z")], "conds": [], "sets": [],
                             "groupby": ["host"], "order": None, "limit": None, "fmt": "generickv"}})
+    # the numbers on the wire: partial results with large, tiny, negative and fractional values, serialised by the real
+    # AggregateSet.Serialize and merged by real client handlers
+    for i in range(30 if tier == "quick" else 600):
+        parts = []
+        for _ in range(rng.choice([1, 2, 3])):
+            cnt = rng.choice([1, 7, 999999, 1000000, 1000001, 12345678, 2 ** 31, 10 ** 15])
+            parts.append({"samples": cnt, "f": {"count(x)": float(cnt), "sum(x)": rng.choice([0.1, -2.5, 1e21, 1e-7, 123456789.25, -1e6, 3.0, 0.0]),
+                                                 "min(x)": rng.choice([-0.5, 1e-7, -1e9, 0.0, 42.0]), "max(x)": rng.choice([3.0, 1e6, 1e21, -7.25, 0.0])}})
+        cases.append({"wire": parts})
     n = 250 if tier == "quick" else 8000
     for i in range(n):
         fmt = rng.choice(["generickv", "generickv", "default", "csv"])
@@ -125,8 +136,16 @@ def generate(rng, tier):
 
 
 def run_impl(cases, tier):
-    res, infos = vf.harness_parallel("mapr", [{k: v for k, v in c.items() if not k.startswith("_")} for c in cases], shards=vf.NCPU)
-    return res
+    mi = [i for i, c in enumerate(cases) if "wire" not in c]
+    res, infos = vf.harness_parallel("mapr", [{k: v for k, v in cases[i].items() if not k.startswith("_")} for i in mi], shards=vf.NCPU)
+    obs = [None] * len(cases)
+    for i, r in zip(mi, res):
+        obs[i] = r
+    wi = [i for i, c in enumerate(cases) if "wire" in c]
+    res, infos = vf.harness_parallel("maprwire", [{"parts": cases[i]["wire"]} for i in wi], shards=2)
+    for i, r in zip(wi, res):
+        obs[i] = r
+    return obs
 
 
 # ---- independent reference: evaluate the query once over all lines ----
@@ -321,6 +340,26 @@ def judge(cases, obs, tier):
         if o is None or "panic" in o or "error" in o:
             oracle[i] = "implementation failed: %s" % (o,)
             continue
+        if "wire" in c:
+            parts = c["wire"]
+            want = [float(sum(p["f"]["count(x)"] for p in parts)), None, min(p["f"]["min(x)"] for p in parts), max(p["f"]["max(x)"] for p in parts)]
+            acc = 0.0
+            for p in parts:
+                acc += p["f"]["sum(x)"]
+            want[1] = acc
+            row = o["rows"][0] if o.get("rows") else None
+            if row is None or len(row) != 5:
+                oracle[i] = "the merged partial results give no row: %s (messages %s)" % (o.get("rows"), o.get("messages"))
+            else:
+                for name, w, g in zip(["count(x)", "sum(x)", "min(x)", "max(x)"], want, row[1:]):
+                    try:
+                        gv = float(g)
+                    except ValueError:
+                        gv = None
+                    if gv is None or abs(gv - w) > 1e-6 + 1e-9 * abs(w):
+                        oracle[i] = "numbers on the wire: %s of the merged partial results is %s, expected %r (messages %s)" % (name, g, w, [m[:80] for m in o.get("messages", [])])
+                        break
+            continue
         if "skip" in o:
             errors.append("generated query does not parse: %s" % bytes.fromhex(c["query"]).decode())
             continue
@@ -361,6 +400,8 @@ def judge(cases, obs, tier):
 
 
 def classify(case, ob, detail):
+    if "wire" in case:
+        return None
     sels = case["_meta"]["sels"]
     if len(set(sels)) < len(sels):
         # only the multiplied numbers of a repeated column are the known finding
@@ -370,9 +411,13 @@ def classify(case, ob, detail):
 
 
 def nontrivial(c):
+    if "wire" in c:
+        return len(c["wire"]) >= 2
     return sum(len(ch) for ch in c["servers"]) >= 2 and sum(1 for s in c["servers"] for ch in s if ch) >= 2
 
 
 def sample(c, o):
+    if "wire" in c:
+        return {"wire_parts": c["wire"], "rows": (o or {}).get("rows"), "messages": [m[:100] for m in ((o or {}).get("messages") or [])]}
     return {"query": bytes.fromhex(c["query"]).decode(), "servers": [[len(ch) for ch in s] for s in c["servers"]],
             "first_lines": [bytes.fromhex(l).decode() for s in c["servers"] for ch in s for l in ch][:3], "rows": (o or {}).get("rows", [])[:4]}
